@@ -305,6 +305,38 @@ func init() {
 			s.End()
 			s.Blocks(1, allHdr)
 		}},
+		Directed{"evm_odd_addresses", []string{"C17", "C02", "C05"}, fam(0), func(s *Script) {
+			// the precompile addresses 0x01..0x09 as ordinary holders of value, and deployments that leave no code behind
+			s.Blocks(2, allHdr)
+			pre := func(i byte) []byte { a := make([]byte, 20); a[19] = i; return a }
+			s.Begin(allHdr) // 3
+			ev, bal := s.Deploy(4, prog("balances", nil), 0, "0", cgas)
+			s.expect(OK(ev), "deploy balances reader")
+			ev, fwd := s.Deploy(4, prog("forwarder", nil), 0, "0", cgas)
+			s.expect(OK(ev), "deploy forwarder")
+			s.expect(OK(s.TransferTo(5, pre(2), "1000", 0)), "native transfer to the address of a precompile")
+			s.expect(OK(s.TransferTo(5, pre(9), "7", 0)), "and to another one")
+			s.End()
+			s.Begin(allHdr) // 4
+			s.expect(OK(s.CallC(6, bal, word(pre(2)), "0", cgas)), "a contract reads the balance of 0x02")
+			s.expect(OK(s.CallC(6, fwd, word(pre(2)), "500", cgas)), "a contract forwards value to 0x02")
+			s.expect(OK(s.CallC(6, fwd, word(pre(4)), "30", cgas)), "and to 0x04 (identity)")
+			s.expect(OK(s.CallC(6, bal, word(pre(2)), "0", cgas)), "the balance is read again")
+			s.TransferTo(6, pre(1), "5", cgas) // a transfer with a high gas limit to a precompile address
+			s.End()
+			s.Begin(Hdr{Proposer: 2}) // 5: deployments that end without code
+			ev, _ = s.deployRaw(5, []byte{0x00}, "777", cgas)
+			s.expect(OK(ev), "init code STOP: an account without code, holding the value")
+			ev, _ = s.deployRaw(5, nil, "0", cgas)
+			s.expect(OK(ev), "empty init code")
+			ev, _ = s.deployRaw(5, Asm("CALLER SELFDESTRUCT", nil), "55", cgas)
+			s.expect(OK(ev), "a constructor that self-destructs")
+			ev, _ = s.deployRaw(5, Asm("0 0 REVERT", nil), "5", cgas)
+			s.expect(!OK(ev), "a constructor that reverts")
+			s.expect(OK(s.Transfer(5, 6, "1e18")), "the deployer goes on")
+			s.End()
+			s.Blocks(1, allHdr)
+		}},
 		Directed{"evm_mixed", []string{"C17", "C02", "C04", "C16"}, fam(2), func(s *Script) {
 			// contract transactions interleaved with staking, withdrawal and fees on the same accounts; the proposer uses contracts
 			s.Blocks(3, allHdr)
